@@ -151,8 +151,20 @@ pub fn generate(rng: &mut Rng, n: usize, _thorough: bool) -> Vec<Value> {
         v.push(json!({"kind":"build","config":rand_config(rng, false),"params":rand_params_json(rng),"ops":ops,
                       "reqid":rng.chance(3,4),"sessid":rng.chance(3,4)}));
     }
+    // the service URL is any URL the embedder configures: every third case takes one from the URL grammar or from the
+    // directed list (paths ending in a slash, empty segments, queries ending in a separator), drawn from a stream of its
+    // own so that the cases above stay what they were
+    let mut urng = Rng::new(0xC15_0C15 ^ n as u64);
+    for (i, c) in v.iter_mut().enumerate() {
+        if i % 3 == 1 {
+            let u = if i % 2 == 0 { rand_url(&mut urng) } else { (*urng.pick(&SLASH_URLS)).to_string() };
+            c["config"]["url"] = hx(&u);
+        }
+    }
     v
 }
+const SLASH_URLS: [&str; 8] = ["http://example.com/service/update/", "https://h/a/", "http://h//", "http://h/a//", "http://h/a/?x=1",
+                               "http://h/a/?x=/", "https://omaha.example.org/service/update/json/", "http://h/p?q=1&"];
 
 pub const HEADER: &str = "Require Import Verif.Run.EvalC15.";
 pub const CTYPE: &str = "c15case";
